@@ -5,7 +5,7 @@
    facts about them; the section derives `sess_ok c s0 k cut = true` for every
    clean well-formed s0, every failing command index k and every cut. *)
 From Coq Require Import String List NArith ZArith Ascii Bool Lia Arith.
-From SV Require Import Lib.Bytes Model.FwLife Model.FwLifeSpec Proofs.FwLife_lemmas Proofs.FwLife_gen1_wip.
+From SV Require Import Lib.Bytes Model.FwLife Model.FwLifeSpec Proofs.FwLife_lemmas Proofs.FwLife_gen_run.
 Import ListNotations.
 
 Definition ph (on : bool) (m : mark) (F : faultfn) (prog : list step) (n : nat) (s : kstate) : runres :=
@@ -21,7 +21,7 @@ Section Session.
 Variable c : cfg.
 Hypothesis Hnpf : not_pf c = true.
 Hypothesis Hwfc : cfg_wf c = true.
-Hypothesis Hudp : c_udp c = false.
+Hypothesis Hudp : udp_refused c = false.
 
 Lemma session_unfold cut F s0 :
   c_nlines c <= cut ->
@@ -40,7 +40,7 @@ Lemma session_unfold cut F s0 :
 Proof.
   intro Hle. unfold session.
   assert (Lt : Nat.ltb cut (c_nlines c) = false) by (apply Nat.ltb_ge; exact Hle). rewrite Lt.
-  unfold udp_refused. rewrite Hudp. cbn [andb]. unfold do_setup, do_restore, ph.
+  rewrite Hudp. unfold do_setup, do_restore, ph.
   unfold not_pf in Hnpf.
   destruct (c_method c); try discriminate;
     (destruct (fc_on (c_v6 c));
@@ -57,7 +57,8 @@ Qed.
 (* ---------------- the method's abstract view ---------------- *)
 Variable AS : Type.
 Variable R : fam -> kstate -> AS -> Prop.
-Variables clean full : fam -> AS.
+Variable clean : fam -> AS.
+Variable Full : fam -> AS -> Prop.     (* the states a fault-free set-up ends in *)
 Variable AInv : fam -> AS -> Prop.
 Variable nd : fam -> AS -> bool.
 Variables arS arR : faultfn -> fam -> nat -> AS -> bool * nat * AS * list cmd.
@@ -84,11 +85,12 @@ Hypothesis WIN_R : win_hyp arR.
 Hypothesis P_inv_clean : forall f, AInv f (clean f).
 Hypothesis P_inv_S : forall F f n a ok n' a' tr, AInv f a -> arS F f n a = (ok, n', a', tr) -> AInv f a'.
 Hypothesis P_inv_R : forall F f n a ok n' a' tr, AInv f a -> arR F f n a = (ok, n', a', tr) -> AInv f a'.
-Hypothesis P_R_nf : forall f n a ok n' a' tr, AInv f a -> arR no_faults f n a = (ok, n', a', tr) -> a' = clean f.
+Hypothesis P_R_nf : forall f n a ok n' a' tr,
+  on f = true -> AInv f a -> arR no_faults f n a = (ok, n', a', tr) -> a' = clean f.
 Hypothesis P_S_nf : forall f n a ok n' a' tr,
-  on f = true -> AInv f a -> arS no_faults f n a = (ok, n', a', tr) -> ok = true /\ a' = full f.
-Hypothesis P_R_one : forall f k n ok n' a' tr,
-  on f = true -> arR (fault_at k) f n (full f) = (ok, n', a', tr) ->
+  on f = true -> AInv f a -> arS no_faults f n a = (ok, n', a', tr) -> ok = true /\ Full f a'.
+Hypothesis P_R_one : forall f k n a ok n' a' tr,
+  on f = true -> Full f a -> arR (fault_at k) f n a = (ok, n', a', tr) ->
   nd f a' = true \/ (n <= k /\ exists x, nth_error tr (k - n) = Some x /\ excused x = true).
 Hypothesis FIN : forall s, (forall f, on f = true -> R f s (clean f)) -> erase c s = s.
 Hypothesis ND : forall s (a : fam -> AS),
@@ -210,11 +212,11 @@ Qed.
 
 Lemma aph_S_nf F f n a ok n' a' tr :
   AInv f a -> aph (on f) (arS F f) n a = (ok, n', a', tr) -> (forall i, n <= i < n' -> F i = false) ->
-  ok = true /\ (on f = true -> a' = full f).
+  ok = true /\ (on f = true -> Full f a').
 Proof.
   unfold aph. intros Hi H HF. destruct (on f) eqn:On.
   - apply (EXT_S F no_faults) in H; [|intros i Hi'; rewrite (HF i Hi'); reflexivity].
-    destruct (P_S_nf _ _ _ _ _ _ _ On Hi H) as [-> ->]. split; [reflexivity | trivial].
+    destruct (P_S_nf _ _ _ _ _ _ _ On Hi H) as [-> Hf]. split; [reflexivity | intros _; exact Hf].
   - injection H as <- <- <- <-. split; [reflexivity | discriminate].
 Qed.
 
@@ -224,7 +226,7 @@ Lemma aph_R_nf F f n a ok n' a' tr :
 Proof.
   unfold aph. intros Hi H HF On. rewrite On in H.
   apply (EXT_R F no_faults) in H; [|intros i Hi'; rewrite (HF i Hi'); reflexivity].
-  eapply P_R_nf; eassumption.
+  exact (P_R_nf _ _ _ _ _ _ _ On Hi H).
 Qed.
 
 Lemma asetup_inv F a6 a4 ok4 n2 b6 b4 t12 :
@@ -244,7 +246,7 @@ Qed.
 Lemma asetup_nf F a6 a4 ok4 n2 b6 b4 t12 :
   AInv V6 a6 -> AInv V4 a4 -> asetup F a6 a4 = (ok4, n2, b6, b4, t12) ->
   (forall i, i < n2 -> F i = false) ->
-  ok4 = true /\ (on V6 = true -> b6 = full V6) /\ (on V4 = true -> b4 = full V4).
+  ok4 = true /\ (on V6 = true -> Full V6 b6) /\ (on V4 = true -> Full V4 b4).
 Proof.
   intros I6 I4. unfold asetup.
   destruct (aph (on V6) (arS F V6) 0 a6) as [[[ok6 n1] x6] t1] eqn:A1.
@@ -287,7 +289,7 @@ Proof.
 Qed.
 
 Lemma arest_one k n2 b6 b4 n4 d6 d4 t34 :
-  (on V6 = true -> b6 = full V6) -> (on V4 = true -> b4 = full V4) ->
+  (on V6 = true -> Full V6 b6) -> (on V4 = true -> Full V4 b4) ->
   AInv V6 b6 -> AInv V4 b4 ->
   arest (fault_at k) n2 b6 b4 = (n4, d6, d4, t34) ->
   ((on V6 = true -> nd V6 d6 = true) /\ (on V4 = true -> nd V4 d4 = true)) \/
@@ -301,11 +303,11 @@ Proof.
   assert (C6 : (on V6 = true -> nd V6 x6 = true) \/
                (n2 <= k /\ exists x, nth_error t3 (k - n2) = Some x /\ excused x = true)).
   { unfold aph in A3. destruct (on V6) eqn:On; [|left; discriminate].
-    rewrite (F6 eq_refl) in A3. destruct (P_R_one V6 k n2 _ _ _ _ On A3) as [N|X]; [left; intros _; exact N | right; exact X]. }
+    destruct (P_R_one V6 k n2 _ _ _ _ _ On (F6 eq_refl) A3) as [N|X]; [left; intros _; exact N | right; exact X]. }
   assert (C4 : (on V4 = true -> nd V4 x4 = true) \/
                (n3 <= k /\ exists x, nth_error t4 (k - n3) = Some x /\ excused x = true)).
   { unfold aph in A4. destruct (on V4) eqn:On; [|left; discriminate].
-    rewrite (F4 eq_refl) in A4. destruct (P_R_one V4 k n3 _ _ _ _ On A4) as [N|X]; [left; intros _; exact N | right; exact X]. }
+    destruct (P_R_one V4 k n3 _ _ _ _ _ On (F4 eq_refl) A4) as [N|X]; [left; intros _; exact N | right; exact X]. }
   destruct C6 as [N6|(Hk & x & Hx & Ex)].
   - destruct C4 as [N4|(Hk & x & Hx & Ex)]; [left; split; assumption|].
     right. split; [lia|]. exists x. split; [|exact Ex].
